@@ -191,7 +191,7 @@ def main(argv):
 
     # ---- reporting ----------------------------------------------------------------------------------------------
     os.makedirs(os.path.join(ROOT, 'replays'), exist_ok=True)
-    os.makedirs(os.path.join(ROOT, 'evidence'), exist_ok=True)
+    os.makedirs(os.environ.get('VERIF_EVIDENCE_DIR', os.path.join(ROOT, 'evidence')), exist_ok=True)
     exit_code = 0
     n_viol = 0
     replay_dir = os.environ.get('VERIF_REPLAY_DIR', os.path.join(ROOT, 'replays'))
@@ -323,7 +323,7 @@ def write_evidence(prop, tier, seed, obs, sym_results, nat_results, conf, violat
     }
     ev = {'property_id': prop, 'tier': tier, 'seed': seed, 'level': level, 'coverage': cov,
           'assumptions': assumptions, 'wall_s': round(time.time() - t0, 2), 'violations': n_viol}
-    p = os.path.join(ROOT, 'evidence', f'{prop}.json')
+    p = os.path.join(os.environ.get('VERIF_EVIDENCE_DIR', os.path.join(ROOT, 'evidence')), f'{prop}.json')
     with open(p, 'w') as f:
         json.dump(ev, f, indent=1, default=str)
     try:
